@@ -144,13 +144,14 @@ def run_case(case):
     """returns a list of traces: facade / core / pandas projections of one (frame, by, method)."""
     from groupby_lib import GroupBy
     _install()
+    api.set_config(case)
     obj, kw, keys, kkinds, vnames = build_frame(case)
     meth = case["method"]
     n = len(keys[0])
     krows = [[keys[j][i] for j in range(len(keys))] for i in range(n)]
     rank = [sorted({r[j] for r in krows if r[j] != NULL}) for j in range(len(keys))]
     traces = []
-    meta = {"cfg": {k: case.get(k) for k in ("by", "index", "method", "select", "series", "kkinds", "seed")}, "k1": case["k1"], "k2": case.get("k2"), "vcols": case["vcols"]}
+    meta = {"cfg": {k: case.get(k) for k in ("by", "index", "method", "select", "series", "kkinds", "seed", "T")}, "k1": case["k1"], "k2": case.get("k2"), "vcols": case["vcols"]}
 
     allcols = dict(case["vcols"])
     if case.get("select") == "withkey":
